@@ -151,6 +151,7 @@ func VerifC10Single(tries, nmsgs, garbage int) {
 // VerifC10Two (DHCPv6): two concurrent callers, distinct or colliding ids.
 func VerifC10Two(nmsgs, collide, sched int) {
 	verifSchedule(sched != 0)
+	verifRaceDetect(true)
 	k := &verifCall{conn: newVerifConn()}
 	verifNewClient(k, 1)
 	c := k.c
